@@ -391,6 +391,7 @@ class GoGen:
         opts = ['decl'] + (['assign'] if [v for v in declared if v != 'p'] else []) + ['call']
         if depth == 'branch': opts = [o for o in opts if o != 'decl']
         if depth == 'if': opts = ['if']
+        if depth == 'switch': opts = ['switch']
         k = s.ex.choose([(True, o) for o in opts])
         if k == 'decl':
             fresh = [v for v in ('a', 'b') if v not in declared]
@@ -405,6 +406,14 @@ class GoGen:
             s.n += 1
             fty = Agg(s.GT.key, s.GT.vindex('TFunc'), [PyVec([s.T()]), mkbox(s.T('TUnit'))])
             return s.S('Expr', **{s.GS.variants[s.GS.vindex('Expr')].fields[0][0] if s.GS.variants[s.GS.vindex('Expr')].fields[0][0] else '0': None}) if False else Agg(s.GS.key, s.GS.vindex('Expr'), [s.E('Call', func=mkbox(s.E('Var', name=mkstr('g%d' % s.n), ty=fty)), args=PyVec([s.atom(declared)]), ty=s.T('TUnit'))])
+        if k == 'switch':
+            scrut = s.atom(declared)
+            lit = lambda v: s.E('Int', value=mkstr(v), ty=s.T())
+            blocks = []
+            for _ in range(3):
+                d_ = list(declared); blocks.append(s.block(d_, s.branch_n, 'branch', inner=True))
+            with_default = s.ex.choose([(True, True), (True, False)])
+            return s.S('SwitchExpr', expr=scrut, cases=PyVec([Agg('tuple', 0, [lit('0'), blocks[0]]), Agg('tuple', 0, [lit('7'), blocks[1]])]), default=ms.some(blocks[2]) if with_default else ms.NONE())
         ck = s.ex.choose([(True, o) for o in s.conds]) if len(s.conds) > 1 else s.conds[0]
         if ck == 'less': cond = s.E('BinaryOp', op=Agg(s.GB.key, s.GB.vindex('Less'), []), lhs=mkbox(s.atom(declared)), rhs=mkbox(s.atom(declared)), ty=s.T('TBool'))
         else: cond = s.E('Bool', value=(ck == 'true'), ty=s.T('TBool'))
@@ -467,18 +476,32 @@ class GoEval:
                 for k in set(e1) | set(e2):
                     if k.startswith('#') or k not in env: continue
                     if e1.get(k) != env[k] or e2.get(k) != env[k]: env[k] = ('phi', c, e1.get(k), e2.get(k))
+            elif n == 'SwitchExpr':
+                c = s.term(f['expr'], env, trace)
+                arms = []; envs = []
+                for cb in f['cases'].items:
+                    v = s.term(cb.fields[0], env, trace)
+                    e_ = dict(env); t_ = []; s.block(cb.fields[1], e_, t_); arms.append((v, tuple(t_))); envs.append(e_)
+                dt = None
+                if f['default'].idx == 1:
+                    e_ = dict(env); t_ = []; s.block(f['default'].fields[0], e_, t_); dt = tuple(t_); envs.append(e_)
+                else: envs.append(dict(env))
+                trace.append(('switch', c, tuple(arms), dt))
+                for k in set().union(*[set(e_) for e_ in envs]):
+                    if k.startswith('#') or k not in env: continue
+                    if any(e_.get(k) != env[k] for e_ in envs): env[k] = ('phi-switch', c, tuple(e_.get(k) for e_ in envs))
             else: raise Unsupported('go evaluator: stmt ' + n)
 
 class UseBeforeDecl(Exception): pass
 
 def ob_block_dce(r, tier, seed, nstmts, depth, forms=('atom', 'call', 'add', 'div'), conds=('less',), branch_n=1):
     W = e2.fresh_world(CRATES)
-    r.bounds = 'Go blocks of %d statements (+ final `return <var>`) over {VarDecl, Assignment, call statement%s}, variables {a, b} and parameter p, initialisers among atom / call / + / integer division; nothing live afterwards' % (nstmts, ', if/else with %d-statement branches, condition among %s' % (branch_n, list(conds)) if depth else '')
+    r.bounds = 'Go blocks of %d statements (+ final `return <var>`) over {VarDecl, Assignment, call statement%s}, variables {a, b} and parameter p, initialisers among atom / call / + / integer division; nothing live afterwards' % (nstmts, (', value switch with two cases and an optional default' if depth == 'switch' else ', if/else with %d-statement branches, condition among %s' % (branch_n, list(conds))) if depth else '')
     r.assumptions = ['inputs are well-formed Go by construction (declared before use)', 'an assignment `x = e` never reads x itself: goml has no mutable locals, emitted temporaries are assigned once per path (a kernel counterexample `var a = p; a = a; return a` exists - dce drops the initialiser - but no goml program produces that shape)', 'oracle: translation validation with uninterpreted calls - the sequence of calls (with argument terms), of possibly-failing integer divisions and of branch events, and the returned term, must be identical before and after DCE; every variable read or assigned in the output must be declared there']
     def entry(ex):
         g = GoGen(W, ex, forms, conds, branch_n); declared = ['p']
         blk = g.block(declared, nstmts, 0)
-        if depth: blk.fields[0].items.append(g.stmt(declared, 'if'))
+        if depth: blk.fields[0].items.append(g.stmt(declared, 'switch' if depth == 'switch' else 'if'))
         ret = ex.choose([(True, v) for v in declared])
         blk.fields[0].items.append(g.S('Return', expr=ms.some(g.var(ret))))
         ev = GoEval(g); t_in = []; ev.block(blk, {'p': ('param', 'p')}, t_in)
@@ -510,6 +533,10 @@ def flat_events(t):
     out = []
     for e in t:
         if e[0] == 'if': out.append(('if', None)); out += flat_events(e[2]) + flat_events(e[3])
+        elif e[0] == 'switch':
+            out.append(('switch', None))
+            for _v, t_ in e[2]: out += flat_events(t_)
+            if e[3] is not None: out += flat_events(e[3])
         else: out.append(e)
     return out
 
@@ -532,6 +559,7 @@ def describe_block(g, b):
         elif n == 'Assignment': out.append('%s = %s' % (ms.pystr(f['name']), ex_(f['value'])))
         elif n == 'Return': out.append('return %s' % (ex_(f['expr'].fields[0]) if f['expr'].idx == 1 else ''))
         elif n == 'If': out.append('if %s { %s } else { %s }' % (ex_(f['cond']), describe_block(g, f['then']), describe_block(g, f['else_'].fields[0]) if f['else_'].idx == 1 else ''))
+        elif n == 'SwitchExpr': out.append('switch %s { %s%s }' % (ex_(f['expr']), ' '.join('case %s: %s;' % (ex_(cb.fields[0]), describe_block(g, cb.fields[1])) for cb in f['cases'].items), (' default: ' + describe_block(g, f['default'].fields[0])) if f['default'].idx == 1 else ''))
         else: out.append(n)
     return '; '.join(out)
 
@@ -641,6 +669,7 @@ def obligations():
             Ob('O9.2-block-dce-3', 'block-level DCE: 3 statements + return', ob_block_dce, ('thorough',), 20, dict(nstmts=3, depth=0)),
             Ob('O9.2-block-dce-if', 'block-level DCE: 1 statement, then if/else with one assignment or call per branch, + return', ob_block_dce, ('quick', 'thorough'), 20, dict(nstmts=1, depth=1, forms=('atom', 'call', 'div'))),
             Ob('O9.2-block-dce-constif', 'block-level DCE: 1 statement, then if/else with a literal condition and 2 statements per branch, + return', ob_block_dce, ('quick', 'thorough'), 30, dict(nstmts=1, depth=1, forms=('call',), conds=('true', 'false'), branch_n=2)),
+            Ob('O9.2-block-dce-switch', 'block-level DCE: 1 statement, then a value switch with two cases (+ default), + return', ob_block_dce, ('quick', 'thorough'), 30, dict(nstmts=1, depth='switch', forms=('atom', 'call'))),
             Ob('O9.2-block-dce-if2', 'block-level DCE: 2 statements, then if/else, + return', ob_block_dce, ('thorough',), 200, dict(nstmts=2, depth=1, forms=('atom', 'call')))]
     obs += [Ob('O9.3-anf-order-go', 'ANF keeps a `go` in tail / let / if position', ob_anf_order, ('quick', 'thorough'), 1, dict(depth=0, forms=[], top='go')),
             Ob('O9.4-go-lowering-go', 'Go lowering emits the go statement for a `go` in tail / let / if position', ob_go_lowering, ('quick', 'thorough'), 1, dict(depth=0, forms=[], top='go'))]
